@@ -219,6 +219,19 @@ def run(case, ctx):
                 evals += 1
             except Exception as e:
                 viols.append(viol(f"arith-exception-{type(e).__name__}", f"{name} raised {type(e).__name__}: {str(e)[:200]}; orders {orders}; histories {ha} / {hb}"))
+        # the same operations traced under jit (keys sorted by jax inside the trace): results by type must agree
+        try:
+            js = jax.jit(lambda u, v: (u + v, u - v, u * 3.0, v / 2.0))(a, b)
+            evals += 1
+            wants = [
+                {t: blocks_a[t] + blocks_b[t] for t in blocks_a}, {t: blocks_a[t] - blocks_b[t] for t in blocks_a},
+                {t: blocks_a[t] * 3.0 for t in blocks_a}, {t: blocks_b[t] / 2.0 for t in blocks_a},
+            ]
+            for nm, got, want in zip(("add", "sub", "mul", "div"), js, wants):
+                if set(got.keys()) != set(want) or any(np.asarray(got[t]).shape != want[t].shape or not np.allclose(np.asarray(got[t]), want[t], rtol=1e-6) for t in want):
+                    viols.append(viol("D2-arith-positional-pairing" if (orders[0] != orders[1] and nm in ("add", "sub")) else "arith-under-jit", f"jit({nm}) differs from the per-type result; orders {orders}; histories {ha} / {hb}"))
+        except Exception as e:
+            viols.append(viol(f"arith-exception-{type(e).__name__}", f"jit arithmetic raised {type(e).__name__}: {str(e)[:200]}; orders {orders}"))
         # equality across histories: same content rebuilt through another history must compare equal
         try:
             a2, ha2, _ = build(rng, geom, jax, jnp, blocks_a, D, torus, n_lead)
